@@ -65,15 +65,44 @@ def roots():
     ]
 
 
-def build(root_i, chain):
-    """Returns list of states along the chain (root first)."""
+USE_PROBE = 'a {[<$!\\x@y%#(~>]})\n\n$$!!\\(\\[ b'
+
+
+def use_state(ps):
+    """The 'use' operation of a history: tokenise (strictly and tolerantly) and parse with the state, so that
+    anything a state builds lazily on first use exists before the next sub_context() call."""
+    tokens_all(ps, USE_PROBE, False)
+    tokens_all(ps, 'a $x$', True)
+
+
+def build(root_i, chain, use=True):
+    """Returns list of states along the chain (root first).  With use=True every state is used (tokenising,
+    parsing) before the next state is derived from it - the history 'derive from a state that has worked'."""
     ps = roots()[root_i][1]()
     out = [ps]
     for di in chain:
+        if use:
+            use_state(ps)
         delta = {k: (list(v) if isinstance(v, list) else v) for k, v in DELTAS[di].items()}
         ps = ps.sub_context(**delta)
         out.append(ps)
     return out
+
+
+def tokens_all(ps, s, tolerant):
+    """Reads on after a token error (skipping one character), so that every position of the probe is visited."""
+    from pylatexenc.latexnodes import LatexTokenReader, LatexWalkerEndOfStream
+    tr = LatexTokenReader(s, tolerant_parsing=tolerant)
+    for _ in range(2 * len(s) + 2):
+        try:
+            tr.next_token(parsing_state=ps)
+        except LatexWalkerEndOfStream:
+            break
+        except Exception:
+            p = tr.cur_pos() + 1
+            if p > len(s):
+                break
+            tr.move_to_pos_chars(p)
 
 
 def tokens(ps, s, tolerant=True):
@@ -139,10 +168,17 @@ def check_state(root_i, chain, acc, seen_tables, b, seen=None):
         return None
     acc.count('traces_validated_against_impl')
     d = states[-1]
+    # the same chain derived from states that were never used must give an equal state
+    st0, unused = run_guarded(build, root_i, chain, False)
+    if st0 != 'ok' or canon.canon_parsing_state(unused[-1]) != canon.canon_parsing_state(d):
+        acc.violation(ID, 'es', case, dict(kind='state-depends-on-use-of-parent-before-deriving'),
+                      observed=repr(canon.canon_parsing_state(d))[:600],
+                      expected=repr(canon.canon_parsing_state(unused[-1]) if st0 == 'ok' else st0)[:600])
+    d0 = unused[-1] if st0 == 'ok' else None
     # parent unchanged by the last sub_context call: rebuild the parent independently and compare
     if len(states) >= 2:
         parent = states[-2]
-        indep = build(root_i, chain[:-1])[-1]
+        indep = build(root_i, chain[:-1], False)[-1]
         if canon.canon_parsing_state(parent) != canon.canon_parsing_state(indep):
             acc.violation(ID, 'es', case, dict(kind='sub_context-altered-its-parent', delta=sorted(DELTAS[chain[-1]].keys())),
                           observed=repr(canon.canon_parsing_state(parent))[:600], expected=repr(canon.canon_parsing_state(indep))[:600])
@@ -170,14 +206,24 @@ def check_state(root_i, chain, acc, seen_tables, b, seen=None):
     new_tables = kd[1] not in seen_tables
     W = b['Wnew'] if (new_tables or bad_tables) else b['W']
     seen_tables.add(kd[1])
+    bad = False
     for s in wordlist(W):
-        td = tokens(d, s)
-        tf = tokens(f, s)
-        acc.count('token_comparisons')
-        if td != tf:
-            acc.violation(ID, 'es', dict(case, s=s), dict(kind='tokens-differ-from-fresh',
-                                                           last_delta=sorted(DELTAS[chain[-1]].keys()) if chain else None),
-                          observed=repr(td)[:500], expected=repr(tf)[:500])
+        for tol in (True, False):
+            tf = tokens(f, s, tol)
+            for which, dd in (('used-parents', d), ('unused-parents', d0)):
+                if dd is None or (which == 'unused-parents' and len(s) > 1):
+                    continue
+                td = tokens(dd, s, tol)
+                acc.count('token_comparisons')
+                if td != tf:
+                    acc.violation(ID, 'es', dict(case, s=s, tolerant=tol, history=which),
+                                  dict(kind='tokens-differ-from-fresh', last_delta=sorted(DELTAS[chain[-1]].keys()) if chain else None),
+                                  observed=repr(td)[:500], expected=repr(tf)[:500])
+                    bad = True
+                    break
+            if bad:
+                break
+        if bad:
             break
     # ... and parses identically (strict and tolerant) - once per distinct state
     for s in PARSE_DOCS:
@@ -228,7 +274,7 @@ def plan(tier):
         rule=('all chains of <= %d sub_context() calls over %d field changes from 3 root states; states merged on '
               '(public fields, cached tables); in every state the derived object is compared with ParsingState(**get_fields()) on '
               'its cached tables and on the token sequences of all words of length <= %d (<= %d when the tables are new) over a '
-              '17-symbol alphabet containing every configured delimiter, and on the strict and tolerant parse (LatexGeneralNodesParser started in that state) of a %d-document menu; the parent is compared with an independently rebuilt parent. '
+              '17-symbol alphabet containing every configured delimiter, and on the strict and tolerant parse (LatexGeneralNodesParser started in that state) of a %d-document menu; the parent is compared with an independently rebuilt parent. Histories interleave a "use" operation (tokenise + parse with the state) before every sub_context(); the same chain over never-used states must give an equal state. Tokens are compared in tolerant and strict reading. '
               'states = distinct canonical states per shard; non-trivial = chains of length >= 2.' % (b['chain'], len(DELTAS), b['W'], b['Wnew'], len(PARSE_DOCS))),
         assumptions=['a child inherits only fields and the cached tables from its parent (key completeness)'],
     )
